@@ -45,6 +45,14 @@ def universes():
                                 blk(2, 1, 2, [cb(2, 2, 4, data=b"same")]),
                                 blk(3, 1, 2, [cb(3, 2, 4, data=b"same"), tx(31, [(10, 0, 1)], [(8, 2)])]),
                                 blk(4, 2, 3, [cb(4, 3, 4)])]
+    # unusual but legal shapes: a reward transaction without outputs (the miner claims nothing), one with several outputs, a
+    # transaction with several inputs and outputs, on both sides of a fork
+    cb0 = lambda bid, h: dict(cb(bid, h, 1), outs=[])
+    cbn = lambda bid, h, vs: dict(cb(bid, h, 1), outs=[{"v": v, "k": 1 + i % 2} for i, v in enumerate(vs)])
+    u["odd_shapes"] = [blk(1, 0, 1, [cbn(1, 1, [3, 2, 3])]),
+                       blk(2, 1, 2, [cb0(2, 2)]),
+                       blk(3, 2, 3, [cb(3, 3, 4), tx(31, [(10, 0, 1), (10, 2, 1)], [(1, 2), (2, 1), (3, 2)])]),
+                       blk(4, 1, 2, [cb0(4, 2), tx(41, [(10, 1, 2)], [(2, 1)])])]
     return u
 
 
@@ -93,11 +101,11 @@ def run(pid, tier, replay=None):
         r = tracecheck.model("MC_Store", "Spec", consts, workers=4, timeout=900, extra_defs=defs, view="View",
                              invariants=["I_C08_ReadBack", "I_NoFlushFailure"])
         tlc.require_clean(r, "MC_Store " + name)
-        expect = None if name == "clean" else "I_C08_ReadBack"
+        expect = None if name in ("clean", "odd_shapes") else "I_C08_ReadBack"
         chk.add_tlc("MC_Store universe=%s (every arrival order x every batching)" % name, r, constants=defs[:600], expect_violation=expect)
-        if name == "clean" and r.violated:
-            return machinery_failure(pid, "MC_Store violates %s on the clean universe" % r.violated)
-        if name != "clean" and "I_C08_ReadBack" not in r.violated:
+        if expect is None and r.violated:
+            return machinery_failure(pid, "MC_Store violates %s on the %s universe" % (r.violated, name))
+        if expect is not None and "I_C08_ReadBack" not in r.violated:
             chk.notes.append("universe %s: the model no longer loses the shared transaction" % name)
         if "I_NoFlushFailure" in r.violated:
             return machinery_failure(pid, "MC_Store: honest traffic breaks a flush in the model (%s)" % name)
